@@ -4,7 +4,7 @@
 From Coq Require Import String List NArith ZArith Bool.
 From J5V.lib Require Import Outcome Corr.
 From J5V.model Require Import RulesDecl RulesWrite RulesSpec Validate RulesSpecDec Regex.
-From J5V.model Require Import RulesRead RulesNested RulesNestedSem.
+From J5V.model Require Import RulesRead RulesNested RulesNestedSem RulesOneof.
 Import ListNotations.
 
 (* decidable equality on emitted annotations (transparent, so it computes) *)
@@ -102,6 +102,9 @@ Inductive c12case :=
 (* the regular-expression engine on its own: a pattern, whether Go's regexp compiles
    it, and (text, regexp.MatchString) pairs *)
 | C12Re (p : str) (go_compiles : bool) (ms : list (str * bool))
+(* a oneof: the declared options, the emitted member fields, and per message (at most one
+   member set): what the real validator returned and the Go oracle's reading *)
+| C12Oneof (env : enum_env) (ds : list prop) (obs : list fout) (msgs : list (list fvalue * verdict * option bool))
 (* inline types: a declaration tree (root name Foo), the tree of messages the compiler
    emitted, and per value of the root message (with the embedded messages of its inline
    types): what the real validator returned (all violations, at any depth) and the Go
@@ -139,6 +142,14 @@ Definition c12_check (c : c12case) : bool :=
       forallb (fun p => match p with (fvs, vd, g) =>
                   verdict_eqb (validate_obj re_frag_ok re_frag_match (defined_numbers env) obs fvs) vd
                   && spec_agree (rule_objb re_frag_match env ds fvs) g end) msgs
+  | C12Oneof env ds obs msgs =>
+      match write_members env ds with
+      | Ok os => list_eqb (fun x y => fout_eqb (c12_proj x) (c12_proj y)) os obs
+      | _ => false
+      end &&
+      forallb (fun p => match p with (fvs, vd, g) =>
+                  verdict_eqb (validate_obj re_frag_ok re_frag_match (defined_numbers env) obs fvs) vd
+                  && spec_agree (member_objb re_frag_match env ds fvs) g end) msgs
   | C12Tree env s obs vals =>
       match write_schema env [] [70;111;111]%N s with
       | Ok m => mtree_eqb_with c12_proj m obs
